@@ -86,6 +86,24 @@ fn gen_history(reg: Reg, rng: &mut Prng) -> Vec<Step> {
     let n = rng.range(1, 7);
     let (lo, hi) = reg.inner_band();
     let mut v = vec![];
+    if !reg.fixed() && rng.chance(1, 8) {
+        // structured: an added channel becomes the only enabled one, then the network tries to
+        // delete it or to re-define it with values the device has to refuse
+        let idx = (reg.default_channels().len() as u8 + rng.below(4) as u8).min(15);
+        let f = (lo + rng.below(((hi - lo) / 100) as u64) as u32 * 100) / 100;
+        v.push(Step::Mac(new_channel_req(idx, f, 0x50), rng.bool()));
+        v.push(Step::Mac(link_adr_req(15, 15, 1 << idx, 0, 1), rng.bool()));
+        let req = match rng.below(4) {
+            0 => new_channel_req(idx, 0, 0x50),
+            1 => new_channel_req(idx, 1_000_000, 0x50),
+            2 => new_channel_req(idx, f, 0x05),
+            _ => new_channel_req(idx, (hi + 300_000) / 100, 0x50),
+        };
+        v.push(Step::Mac(req, rng.bool()));
+        v.push(Step::Send);
+        v.push(Step::Send);
+        return v;
+    }
     for _ in 0..n {
         let s = match rng.below(11) {
             10 => {
